@@ -2,65 +2,130 @@ import KaVerif.Lemmas.ParserLemmas
 /-
   C02 — expressions group exactly as the documented precedence and associativity.
 
-  Model: `Model/Parser.lean` (`parse`, the recursive descent of src/ka/parse.py),
-  `Model/Render.lean` (`renderMin`: only the parentheses the rules require, `renderFull`: every
-  sub-expression parenthesised, `Ast.WF`: the trees the grammar can produce).
-
-  Full statement (the goal of the staged proof):
-
-      theorem C02_roundtrip (t : Ast) (h : t.WF) :
-          parse (renderMin t) = .ok t ∧ parse (renderFull t) = .ok t
-
-  Proved so far: `C02_roundtrip_partial`, the same statement for the trees that satisfy
-  `Ast.InFragment` (see `inFrag` in Lemmas/ParserLemmas.lean for the covered constructors).
+  Model: `Model/Parser.lean` (`parse`, the recursive descent of src/ka/parse.py, function by
+  function), `Model/Render.lean` (`renderMin`: only the parentheses the rules require,
+  `renderFull`: every sub-expression parenthesised, `Ast.WF`: the trees the grammar can produce).
+  All three stages of the proof plan (DESIGN.md, C02) are done: the round trip is proved for
+  every constructor of `Ast`.
 -/
 namespace KaVerif
 open KaVerif.Parser
 
-/-- **Round trip (staged).**  For every program tree the grammar can produce whose nodes are among
-    the covered constructors, the text with minimal parentheses and the fully parenthesised text
-    both parse to exactly that tree: so both texts parse to the *same* tree, and the grouping of
-    the minimal text is the one the precedence/associativity table prescribes (the table is
-    `Ast.level` + `rNat` in Model/Render.lean).
-    Covered (stages 1 and 2): numbers, variables, parentheses, postfix `!`, unary sign, `^`, `* / %`,
-    `+ - ±` (all left-associative), one or two comparison operators including
-    `make_comparison_node`'s flipping, quantities with unit signatures (`m^-2 s | kg`, exponents by
-    `parse_integer`), `..`, `to`, function calls with positional and keyword arguments, statements
-    separated by `;`, assignment.  Not yet covered: strings, instants, arrays, comprehensions,
-    interval literals. -/
-theorem C02_roundtrip_partial (t : Ast) (h : t.WF) (hf : t.InFragment) :
+/-- **Round trip.**  For every program tree the grammar can produce, the text with only the
+    parentheses the precedence/associativity table requires and the fully parenthesised text both
+    parse to exactly that tree.  The table is `Ast.level` + `rNat` in Model/Render.lean: tightest
+    first postfix `!` (operand: a primary), a single unary sign, unit attachment, `..` (non-assoc),
+    `^`, `* / %`, `+ - ±`, at most two comparisons (with `make_comparison_node`'s flipping of
+    backward operators), `to`; all binary levels left-associative; function calls with positional
+    then keyword arguments, arrays, comprehensions (generators before conditions), intervals,
+    strings, instants, `;`-separated statements and assignment. -/
+theorem C02_roundtrip (t : Ast) (h : t.WF) :
     parse (renderMin t) = .ok t ∧ parse (renderFull t) = .ok t := by
   cases t with
   | stmts ss =>
     constructor
-    · exact parse_of_parseToks (roundtrip_toks false ss (fun s hs => stmtOK_of_wf false (h s hs) (hf s hs)))
-    · exact parse_of_parseToks (roundtrip_toks true ss (fun s hs => stmtOK_of_wf true (h s hs) (hf s hs)))
+    · exact parse_of_parseToks (roundtrip_toks false ss (fun s hs => stmtOK_of_wf false (h s hs)))
+    · exact parse_of_parseToks (roundtrip_toks true ss (fun s hs => stmtOK_of_wf true (h s hs)))
   | _ => exact absurd h (by simp [Ast.WF])
 
-/-- Corollary: minimal and full parenthesisation denote the same tree. -/
-theorem C02_min_eq_full_partial (t : Ast) (h : t.WF) (hf : t.InFragment) :
-    parse (renderMin t) = parse (renderFull t) := by
-  rw [(C02_roundtrip_partial t h hf).1, (C02_roundtrip_partial t h hf).2]
+/-- Minimal and full parenthesisation denote the same tree (the clause of the property as worded:
+    "parses to the same tree as the fully parenthesised text"); evaluation is a function of the
+    tree, so both evaluate to the same value. -/
+theorem C02_min_eq_full (t : Ast) (h : t.WF) : parse (renderMin t) = parse (renderFull t) := by
+  rw [(C02_roundtrip t h).1, (C02_roundtrip t h).2]
+
+private theorem wf_single {s : Ast} (h : wfS s = true) : (Ast.stmts [s]).WF := by
+  intro y hy; simp at hy; subst hy; exact h
+
+private theorem wf_pair {s1 s2 : Ast} (h1 : wfS s1 = true) (h2 : wfS s2 = true) : (Ast.stmts [s1, s2]).WF := by
+  intro y hy; simp at hy; rcases hy with rfl | rfl <;> assumption
+
+private theorem rAt_bare {t : Ast} {ℓ : Nat} (h : ℓ ≤ t.level) : rAt false ℓ t = rNat false t := by
+  simp [rAt, wrap, h]
+
+/-- **Assignment versus comparison.**  The tokens `x = e` at the start of a statement (also after a
+    `;`) are the assignment of `e` to `x`; the very same tokens inside parentheses are a comparison
+    node labelled "=" with operands `x` and `e`.  (`e`: any expression that can be a comparison
+    operand without parentheses.) -/
+theorem C02_assign_vs_compare (x y : String) (e : Ast) (he : wfE e = true) (hl : 2 ≤ e.level) :
+    let body : List PTok := .var x :: .cmp .asg :: rNat false e
+    parse (toTokens body) = .ok (.stmts [.assign x e])
+    ∧ parse (toTokens (.p .lpar :: body ++ [.p .rpar])) = .ok (.stmts [.cmp1 .asg (.var x) e])
+    ∧ parse (toTokens (.var y :: .p .semi :: body)) = .ok (.stmts [.var y, .assign x e]) := by
+  intro body
+  have h1 := (C02_roundtrip (.stmts [.assign x e]) (wf_single (by simpa [wfS] using he))).1
+  have h2 := (C02_roundtrip (.stmts [.cmp1 .asg (.var x) e])
+    (wf_single (by simp [wfS, wfE, cmp1OK, PCmp.backward, he]))).1
+  have h3 := (C02_roundtrip (.stmts [.var y, .assign x e])
+    (wf_pair (by simp [wfS, wfE]) (by simpa [wfS] using he))).1
+  have e1 : rNat false (.stmts [.assign x e]) = body := by
+    simp [rNat, rStmtTail, wrap, body]
+  have e2 : rNat false (.stmts [.cmp1 .asg (.var x) e]) = .p .lpar :: body ++ [.p .rpar] := by
+    have hc : rNat false (.cmp1 .asg (.var x) e) = body := by
+      rw [rNat_cmp1, rAt_bare hl, rAt_bare (by simp [level_var])]; simp [rNat_var, body]
+    have hs : rNat false (.stmts [.cmp1 .asg (.var x) e])
+        = (rStmtTail false [.cmp1 .asg (.var x) e]).drop 1 := rfl
+    rw [hs, rStmtTail_cons]
+    simp only [List.drop_succ_cons, List.drop_zero, rStmtTail, List.append_nil, stmtText]
+    rw [hc]
+    simp [body, startsAsg, wrap, paren]
+  have e3 : rNat false (.stmts [.var y, .assign x e]) = .var y :: .p .semi :: body := by
+    simp [rNat, rStmtTail, wrap, startsAsg, body]
+  simp only [renderMin, e1, e2, e3] at h1 h2 h3
+  exact ⟨h1, h2, h3⟩
+
+/-- **Keyword arguments.**  In a call, `name : value` after the positional arguments is a keyword
+    argument (a KEYWORD_ARG child labelled `name`); the same identifier without `:` is an ordinary
+    positional argument. -/
+theorem C02_kwarg (f k : String) (a v : Ast) (ha : wfE a = true) (hv : wfE v = true) :
+    parse (toTokens (.var f :: .p .lpar :: rNat false a ++ .p .comma :: .var k :: .p .colon :: rNat false v
+              ++ [.p .rpar])) = .ok (.stmts [.call f [a] [(k, v)]])
+    ∧ parse (toTokens (.var f :: .p .lpar :: rNat false a ++ .p .comma :: .var k :: [.p .rpar]))
+        = .ok (.stmts [.call f [a, .var k] []])
+    ∧ parse (toTokens (.var f :: .p .lpar :: .var k :: .p .colon :: rNat false v ++ [.p .rpar]))
+        = .ok (.stmts [.call f [] [(k, v)]]) := by
+  have h1 := (C02_roundtrip (.stmts [.call f [a] [(k, v)]])
+    (wf_single (by simp [wfS, wfE, wfEs, wfKs, ha, hv]))).1
+  have h2 := (C02_roundtrip (.stmts [.call f [a, .var k] []])
+    (wf_single (by simp [wfS, wfE, wfEs, wfKs, ha]))).1
+  have h3 := (C02_roundtrip (.stmts [.call f [] [(k, v)]])
+    (wf_single (by simp [wfS, wfE, wfEs, wfKs, hv]))).1
+  have e1 : rNat false (.stmts [.call f [a] [(k, v)]])
+      = .var f :: .p .lpar :: rNat false a ++ .p .comma :: .var k :: .p .colon :: rNat false v ++ [.p .rpar] := by
+    simp [rNat, rStmtTail, rTail, rKwTail, wrap, startsAsg]
+  have e2 : rNat false (.stmts [.call f [a, .var k] []])
+      = .var f :: .p .lpar :: rNat false a ++ .p .comma :: .var k :: [.p .rpar] := by
+    simp [rNat, rStmtTail, rTail, rKwTail, wrap, startsAsg]
+  have e3 : rNat false (.stmts [.call f [] [(k, v)]])
+      = .var f :: .p .lpar :: .var k :: .p .colon :: rNat false v ++ [.p .rpar] := by
+    simp [rNat, rStmtTail, rTail, rKwTail, wrap, startsAsg]
+  simp only [renderMin, e1, e2, e3] at h1 h2 h3
+  exact ⟨h1, h2, h3⟩
 
 /-! ### non-vacuity -/
 
 private def n (k : Int) : Ast := .num (.int k)
 
-/-- `x = 1 + 2 * -(3 - 4)! ; c <= 2 ^ 3 ^ 2 < a ; (x = 1)`  (the last statement is a comparison
-    labelled "=", so its minimal text needs parentheses at statement start) -/
 private def sample : Ast := .stmts [
+  -- x = 1 + 2 * -(3 - 4)!
   .assign "x" (.bin .add (n 1) (.bin .mul (n 2) (.sign true (.fact (.bin .sub (n 3) (n 4)))))),
+  -- c <= 2 ^ 3 ^ 2 < a        (`^` is left-associative)
   .cmp2 .leq .lt (.var "c") (.bin .pow (.bin .pow (n 2) (n 3)) (n 2)) (.var "a"),
+  -- (x = 1)                   (a comparison labelled "=" at statement start needs parentheses)
   .cmp1 .asg (.var "x") (n 1),
-  -- -a! m^2|s .. b ^ c * f(1, k: 2) ± 3 <= d < e to km|h   (`..` binds tighter than `^`)
+  -- -a! m^2|s .. b ^ c * f(1, k: 2) ± 3 <= d < e to km|h        (`..` binds tighter than `^`)
   .convert (.cmp2 .leq .lt
       (.bin .pm (.bin .mul (.bin .pow (.range (.quantity (.sign true (.fact (.var "a"))) ⟨[("m", 2)], [("s", 1)]⟩) (.var "b")) (.var "c"))
                  (.call "f" [n 1] [("k", n 2)])) (n 3))
       (.var "d") (.var "e")) ⟨[("km", 1)], [("h", 1)]⟩,
-  -- (3 m)^2 : the parentheses are required because `m^2` would be read as a unit with exponent
-  .bin .pow (.quantity (n 3) ⟨[("m", 1)], []⟩) (n 2)]
+  -- (3 m)^2                   (`3 m^2` would be 3 square metres)
+  .bin .pow (.quantity (n 3) ⟨[("m", 1)], []⟩) (n 2),
+  -- {x : x in 1..3, (y in x), x < 2} ^ [1, "s"]
+  .bin .pow (.compr (.var "x") [("x", .range (n 1) (n 3))] [.cmp1 .elem (.var "y") (.var "x"), .cmp1 .lt (.var "x") (n 2)])
+            (.interval (n 1) (.str "s")),
+  .array [], .array [.inst "2020-01-01", n 2]]
 
-example : sample.WF ∧ sample.InFragment := by decide
+example : sample.WF := by decide
 example : (renderMin sample).map (·.tag.render) =
     ["identifier", "=", "number", "+", "number", "*", "-", "(", "number", "-", "number", ")", "!", ";",
      "identifier", "<=", "number", "^", "number", "^", "number", "<", "identifier", ";",
@@ -68,10 +133,15 @@ example : (renderMin sample).map (·.tag.render) =
      "-", "identifier", "!", "identifier", "^", "number", "|", "identifier", "..", "identifier", "^", "identifier",
      "*", "identifier", "(", "number", ",", "identifier", ":", "number", ")", "±", "number", "<=", "identifier", "<",
      "identifier", "to", "identifier", "|", "identifier", ";",
-     "(", "number", "identifier", ")", "^", "number"] := by decide
-set_option maxRecDepth 4000 in
-example : parse (renderMin sample) = .ok sample := by rfl
+     "(", "number", "identifier", ")", "^", "number", ";",
+     "{", "identifier", ":", "identifier", "in", "number", "..", "number", ",", "(", "identifier", "in", "identifier", ")",
+     ",", "identifier", "<", "number", "}", "^", "[", "number", ",", "string", "]", ";",
+     "{", "}", ";", "{", "instant", ",", "number", "}"] := by decide
 set_option maxRecDepth 8000 in
+example : parse (renderMin sample) = .ok sample := by rfl
+set_option maxRecDepth 16000 in
 example : parse (renderFull sample) = .ok sample := by rfl
+/-- hypotheses of `C02_assign_vs_compare` / `C02_kwarg` are satisfiable -/
+example : wfE (.bin .add (n 1) (.var "z")) = true ∧ 2 ≤ (Ast.bin .add (n 1) (.var "z")).level := by decide
 
 end KaVerif
